@@ -100,6 +100,10 @@ func devRun(args []string) {
 		if len(j.Panics) > 0 {
 			fmt.Printf("  panics x%d\n", len(j.Panics))
 		}
+		for _, w := range j.TruncWitness {
+			b, _ := json.Marshal(w)
+			fmt.Println("  TRUNCATED/UNSUPPORTED", string(b))
+		}
 		for _, w := range j.AllocEvents {
 			b, _ := json.Marshal(w)
 			fmt.Println("  ALLOC", string(b))
